@@ -101,8 +101,9 @@ func (f *Func) String() string {
 
 // Type returns the type of the function.
 func (f *Func) Type() types.Type {
-	// Cache type if not present.
-	if f.Typ == nil {
+	// Cache type if not present; recompute it if the address space was set
+	// after the type was cached (as done by ir.NewFunc).
+	if f.Typ == nil || f.Typ.AddrSpace != f.AddrSpace {
 		f.Typ = types.NewPointer(f.Sig)
 		f.Typ.AddrSpace = f.AddrSpace
 	}
